@@ -199,7 +199,13 @@ def r12_3(ck):
                            "the emitted data is unpacked AFTER 'time': an "
                            "emitted top-level variable called 'time' "
                            "replaces the row's time key", d)
-    ok = "'table': 'history'" in txt
+    ok = any(isinstance(k, ast.Constant) and k.value == 'table'
+             and isinstance(v, ast.Constant) and v.value == 'history'
+             for d in ast.walk(f.node) if isinstance(d, ast.Dict)
+             for k, v in zip(d.keys, d.values)) or any(
+        kw.arg == 'table' and isinstance(kw.value, ast.Constant)
+        and kw.value.value == 'history'
+        for c in A.calls_in(f.node, 'dict') for kw in c.keywords)
     ck.require(ok, 'R12.3', f, f.node.name, "rows go to table 'history'",
                "history rows are not emitted to table 'history'")
     if calls:
@@ -318,6 +324,13 @@ def r12_4(ck):
                'the plain-value return of emit_data vanished')
 
 
+def _ancestors(x, stop):
+    p = getattr(x, '_parent', None)
+    while p is not None and p is not stop:
+        yield p
+        p = getattr(p, '_parent', None)
+
+
 def r12_5(ck):
     ck.rule('R12.5', 'a branch-level _emit reaches set_emit_value for the '
             'whole branch; RAMEmitter.emit copies the row before popping '
@@ -339,9 +352,26 @@ def r12_5(ck):
                "a branch-level '_emit' no longer reaches set_emit_value: "
                'store_schema emit flags for a branch are ignored')
     sev = ck.fn('Store.set_emit_value', 'core.store')
-    txt = A.unparse(sev.node)
-    ok = 'self.emit = emit' in txt and 'child.set_emit_value(emit=emit)' in \
-        txt
+    sp = A.params_of(sev.node)
+    pemit = sp[2] if len(sp) > 2 else 'emit'
+    # the leaf takes the flag it is handed ...
+    leaf = any(isinstance(s2, ast.Assign) and A.is_self_attr(
+        s2.targets[0], 'emit') and A.is_name(s2.value, pemit)
+        for s2 in A.walk_no_nested(sev.node))
+    # ... and every recursive call (below a path, below each child) hands
+    # on that same flag with no path restriction
+    rec = [c for c in A.calls_in(sev.node, 'set_emit_value')
+           if not A.is_name(A.call_receiver(c), 'self')]
+
+    def hands_on(c):
+        e = A.arg_of(c, 1, 'emit')
+        pa = A.arg_of(c, 0, 'path')
+        return A.is_name(e, pemit) and (pa is None or (
+            isinstance(pa, ast.Constant) and pa.value is None))
+    in_loop = [c for c in rec if any(
+        isinstance(p, ast.For) and 'self.inner' in A.unparse(p.iter)
+        for p in _ancestors(c, sev.node))]
+    ok = leaf and bool(in_loop) and all(hands_on(c) for c in rec)
     csev = cfg_of(sev.node)
     for c in A.calls_in(sev.node, 'set_emit_value'):
         if A.is_name(A.call_receiver(c), 'self'):
